@@ -702,6 +702,10 @@ func runC05(c *core.Ctx, ck *Check) {
 // c05Volume: the first 400 bases are judged against the table before and after V distinct shorthand constraints were
 // parsed and used; a judgement that fails only afterwards is reported (op shorthand-after-volume).
 func c05Volume(c *core.Ctx, w *core.W, e *eco.Eco, V int) []core.Violation {
+	if thr := gen.DeltaThreshold(e.Name, 100000, uint64(c.Scale(3000000, 20000000))); thr > 0 && uint64(V) < thr*12/10 {
+		V = int(thr * 12 / 10) // a size threshold written into the sources by a change: go above it
+		w.Count("volume_raised_above_new_source_literal:"+e.Name, int64(thr))
+	}
 	mk := func(i int) base3 { return base3{x: 5, y: i, z: 3, arity: 2 + i%2} }
 	judge := func() map[string]core.Violation {
 		out := map[string]core.Violation{}
